@@ -9,7 +9,7 @@
 (* With Export = TRUE every behaviour of length Depth is printed as one    *)
 (* scenario line for `gse_harness memops --scn`.                           *)
 (***************************************************************************)
-EXTENDS GseMemory, TLC, Json
+EXTENDS GseMemory, TLC, Json, SequencesExt
 
 CONSTANTS Slots, Cap, Size, Ids, MaxBuf, Depth, Export
 
@@ -31,8 +31,8 @@ Init ==
   /\ m = MemInit(Slots) /\ held = <<>> /\ lost = {} /\ nextTag = Size /\ serial = 0
   /\ lastSaved = [i \in Ids |-> NoSave] /\ prev = MemInit(Slots) /\ step = NoStep /\ hist = <<>>
 
-RemoveAt(s, i) == SubSeq(s, 1, i - 1) \o SubSeq(s, i + 1, Len(s))
-RemoveOne(s, x) == LET i == CHOOSE k \in 1..Len(s) : s[k] = x IN RemoveAt(s, i)
+DropAt(s, i) == SubSeq(s, 1, i - 1) \o SubSeq(s, i + 1, Len(s))
+RemoveOne(s, x) == LET i == CHOOSE k \in 1..Len(s) : s[k] = x IN DropAt(s, i)
 Tok(a, b) == a \o ":" \o ToString(b)
 Common(op) == prev' = m /\ hist' = IF Export THEN Append(hist, op) ELSE hist
 
@@ -58,9 +58,9 @@ Reprovision(k) ==
   /\ k \in 1..Len(held)
   /\ LET t == held[k].tag IN
      IF Len(m.free) >= Cap
-     THEN /\ m' = m /\ held' = Append(RemoveAt(held, k), [held[k] EXCEPT !.hasCtx = FALSE])
+     THEN /\ m' = m /\ held' = Append(DropAt(held, k), [held[k] EXCEPT !.hasCtx = FALSE])
           /\ step' = [NoStep EXCEPT !.op = "provision", !.tag = t, !.res = "overflow", !.rtag = t]
-     ELSE /\ m' = [m EXCEPT !.free = Append(m.free, t)] /\ held' = RemoveAt(held, k)
+     ELSE /\ m' = [m EXCEPT !.free = Append(m.free, t)] /\ held' = DropAt(held, k)
           /\ step' = [NoStep EXCEPT !.op = "provision", !.tag = t, !.res = "ok"]
   /\ Common(Tok("reprovision", k - 1)) /\ UNCHANGED <<lost, nextTag, serial, lastSaved>>
 
@@ -111,7 +111,7 @@ SaveFrag(k, fid) ==
          ser == IF h.hasCtx THEN h.serial ELSE serial + 1
          s   == SlotOf(id, Slots)
      IN /\ serial' = IF h.hasCtx THEN serial ELSE serial + 1
-        /\ held' = RemoveAt(held, k)
+        /\ held' = DropAt(held, k)
         /\ IF m.slot[s].used
            THEN /\ m' = m /\ lost' = lost \cup {h.tag} /\ lastSaved' = lastSaved
                 /\ step' = [NoStep EXCEPT !.op = "save_frag", !.id = id, !.serial = ser, !.tag = h.tag, !.res = "refused"]
@@ -162,5 +162,5 @@ TakeReturnsLastSaved ==
         /\ m.slot[s].serial = lastSaved[id].serial /\ m.slot[s].tag = lastSaved[id].tag
 
 \* scenario export: one line per behaviour of length Depth
-ExportInv == (Export /\ Len(hist) = Depth) => PrintT(<<"SCN", Slots, hist>>)
+ExportInv == (Export /\ Len(hist) = Depth) => PrintT("SCNLINE " \o ToString(Slots) \o FoldLeft(LAMBDA a, b : a \o " " \o b, "", hist))
 =============================================================================
